@@ -120,6 +120,9 @@ type Interp struct {
 	ulidN        int
 	copyMerge    bool
 	satCache     map[*Term]bool
+	reflTypes    map[string]*reflType
+	xx           map[*Value]*xxState
+	selCount     map[*ssa.Select]int
 }
 
 func NewInterp(prog *ssa.Program, cfg Config) (*Interp, error) {
